@@ -57,7 +57,7 @@ Adv == <<
   <<91,49,93>>                              \* [1]
 >>
 \* texts that Go's ParseFloat accepts or nearly accepts, typed bare
-NumLike == << <<78,97,78>>, <<73,110,102>>, <<105,110,102,105,110,105,116,121>>, <<110,97,110>>, <<49,101,57,57,57>>,
+NumLike == << <<49>>, <<50,46,53>>, <<78,97,78>>, <<73,110,102>>, <<105,110,102,105,110,105,116,121>>, <<110,97,110>>, <<49,101,57,57,57>>,
               <<48,120,49,48>>, <<49,95,48>>, <<45,49,101,57,57,57>>, <<49,101,51,48,56>>, <<46,53>>, <<53,46>>,
               <<48,120,49,112,45,50>>, <<57,57,57,57,57,57,57,57,57,57,57,57,57,57,57,57,57,57,57,57>> >>
 LongName == Rep(97, 63) \o <<98, 99>>        \* 65 bytes
@@ -99,7 +99,8 @@ NumCases(w) ==
   { Case("num", F \o Colon \o w, {F}, {w}, ""), Case("num_gt", F \o <<58,62>> \o w, {F}, {w}, ""),
     Case("num_range", F \o <<58,91>> \o w \o <<32,84,79,32>> \o w \o <<93>>, {F}, {w}, ""),
     Case("num_list", F \o <<58,40>> \o w \o <<32,79,82,32,49,41>>, {F}, {w}, ""),
-    Case("num_field", w \o Colon \o X, {w}, {X}, ""), Case("num_bare", w, {}, {w}, "") }
+    Case("num_field", w \o Colon \o X, {w}, {X}, ""), Case("num_bare", w, {}, {w}, ""),
+    Case("num_field_range", w \o <<58,91,49,32,84,79,32,50,93>>, {w}, {}, "") }
 
 \* thorough tier: random strings over the characters that matter to a SQL scanner, and field x value pairs
 AdvChars == <<39, 34, 92, 59, 45, 45, 47, 42, 0, 255, 37, 95, 10, 36, 63, 40, 41, 44, 32, 97, 49, 39, 92, 195, 169, 58, 91, 93, 123, 125, 126, 94, 43, 61, 62, 60, 46>>
